@@ -6,7 +6,7 @@ use structmeta::{Flag, NameArgs, NameValue, Parse, StructMeta};
 use syn::{
     ext::IdentExt, parse::Parse, parse2, parse_quote, spanned::Spanned, token, Attribute, Data, DataEnum,
     DataStruct, DeriveInput, Error, Expr, ExprLit, Field, Fields, Ident, Index, ItemEnum,
-    ItemStruct, Lit, Meta, Path, Result, Type, TypeGroup, TypeParamBound, TypeParen, Variant,
+    ItemStruct, Lit, Meta, Path, Result, Type, Variant,
 };
 
 use crate::{
@@ -797,33 +797,30 @@ fn build_deref_for_struct(
     }
     let target_ty = &ref_target(&fields[0].field.ty);
     let member = fields[0].member();
-    // Behind `&`, a trait object without a lifetime bound would get the lifetime of the reference,
-    // while in `type Target = dyn Tr;` (as in the field) it is `'static`.
-    let mut ret_ty = target_ty.clone();
-    {
-        let mut inner = &mut ret_ty;
-        while let Type::Paren(TypeParen { elem, .. }) | Type::Group(TypeGroup { elem, .. }) = inner {
-            inner = elem;
-        }
-        if let Type::TraitObject(t) = inner {
-            if !t.bounds.iter().any(|b| matches!(b, TypeParamBound::Lifetime(_))) {
-                t.bounds.push(parse_quote!('static));
-            }
-        }
-    }
+    // The field type is not written a second time behind `&`: the default lifetime of a trait object anywhere inside it
+    // (`dyn Tr`, `*const dyn Tr`, `(u8, dyn Tr)`, `dyn Tr<'a>` with `Tr<'a>: 'a`) would differ from the one it has in the
+    // field and in `type Target`. `DerefMut` states separately that `Target` is the field's type, so that a reference
+    // to the field is returned as it is and never through a coercion.
+    let field_ty = &fields[0].field.ty;
 
     let content = match kind {
         DeriveItemKind::Deref => {
             quote! {
                 type Target = #target_ty;
-                fn deref(&self) -> & #ret_ty {
+                fn deref(&self) -> &Self::Target {
                     &self.#member
                 }
             }
         }
         DeriveItemKind::DerefMut => {
             quote! {
-                fn deref_mut(&mut self) -> &mut #ret_ty {
+                fn deref_mut(&mut self) -> &mut Self::Target {
+                    fn __target_is_the_field_type<
+                        __S: ?::core::marker::Sized + ::core::ops::Deref<Target = __F>,
+                        __F: ?::core::marker::Sized,
+                    >() {
+                    }
+                    __target_is_the_field_type::<Self, #field_ty>();
                     &mut self.#member
                 }
             }
